@@ -111,6 +111,9 @@ type c16obs struct {
 
 // level 1: one BlockDownloader, actors released in a seeded order.
 func c16Level1(ctx context.Context, run *common.Run, obs *c16obs, idx int) {
+	if run.Saturated() {
+		return
+	}
 	rng := common.Rng(run.Seed, int64(1600000+idx))
 	n := 1 + rng.Intn(6)
 	var prev Hash
@@ -408,6 +411,9 @@ func (f *fakeRequestor) RequestBlock(ctx context.Context, hash Hash, handler bit
 }
 
 func c16Level2(ctx context.Context, run *common.Run, obs *c16obs, idx int) {
+	if run.Saturated() {
+		return
+	}
 	rng := common.Rng(run.Seed, int64(1650000+idx))
 	conc := 1 + rng.Intn(3)
 	delay := time.Duration(2+rng.Intn(6)) * time.Millisecond
@@ -579,14 +585,14 @@ func c16Level2(ctx context.Context, run *common.Run, obs *c16obs, idx int) {
 	select {
 	case <-mdone:
 	case <-time.After(30 * time.Second):
-		run.Violate(common.Violation{Clause: "manager-run-returns", Signature: "manager-run-does-not-return/" + blockedState(), Witness: wit})
+		run.Violate(common.Violation{Clause: "manager-run-returns", Signature: "manager-run-does-not-return", Detail: "goroutines in downloader/manager frames (whole process): " + blockedState(), Witness: wit})
 		return
 	}
 	fdone := make(chan struct{})
 	go func() { fr.wg.Wait(); close(fdone) }()
 	if ok, st := waitOrState(fdone, 30*time.Second); !ok {
-		run.Violate(common.Violation{Clause: "nothing-stays-blocked-on-signalling-channels", Signature: "source-goroutine-blocked/" + st,
-			Detail: "a block source goroutine is still inside HandleBlock/Stop after the manager shut down", Witness: wit})
+		run.Violate(common.Violation{Clause: "nothing-stays-blocked-on-signalling-channels", Signature: "source-goroutine-blocked",
+			Detail: "a block source goroutine is still inside HandleBlock/Stop after the manager shut down; goroutines (whole process): " + st, Witness: wit})
 		return
 	}
 	// (d) downloader list returns to empty
@@ -603,8 +609,8 @@ func c16Level2(ctx context.Context, run *common.Run, obs *c16obs, idx int) {
 		time.Sleep(2 * time.Millisecond)
 	}
 	if left != 0 {
-		run.Violate(common.Violation{Clause: "downloader-list-returns-to-empty", Signature: "downloaders-left/" + blockedState(),
-			Detail: fmt.Sprintf("%d downloaders still registered after shutdown; outcomes %v", left, outcome), Witness: wit})
+		run.Violate(common.Violation{Clause: "downloader-list-returns-to-empty", Signature: "downloaders-left",
+			Detail: fmt.Sprintf("%d downloaders still registered after shutdown; outcomes %v; goroutines (whole process): %s", left, outcome, blockedState()), Witness: wit})
 	}
 	if c := atomic.LoadInt32(&fr.overLimit); c != 0 {
 		run.Violate(common.Violation{Clause: "at-most-configured-concurrent-downloads", Signature: "too-many-concurrent-downloads",
